@@ -93,6 +93,12 @@ fn child(spec: &str) -> i32 {
             },
             "log" => b = b.parse_callbacks(Box::new(Recorder(PathBuf::from(unhex_s(t[1]))))),
             "out" => out = Some(unhex_s(t[1])),
+            // what is generated must not change which files are reported as read
+            "codegen" => match t[1] {
+                "1" => b = b.with_codegen_config(bindgen::CodegenConfig::FUNCTIONS | bindgen::CodegenConfig::TYPES),
+                "2" => b = b.with_codegen_config(bindgen::CodegenConfig::TYPES),
+                _ => {}
+            },
             _ => {}
         }
     }
@@ -1076,6 +1082,8 @@ fn run_case(c: &Case, idx: usize, table_fixed: bool, st: &mut Stats, self_exe: &
         spec.push_str(&format!("clangarg {}\n", hexs(f)));
     }
     spec.push_str(&format!("depfile {} {}\n", hexs(&c.module), hexs(&depfile.to_string_lossy())));
+    spec.push_str(&format!("codegen {}\n", idx % 3));
+    st.inc(&format!("C.codegen_config_{}", idx % 3));
     spec.push_str(&format!("cargo {}\nlog {}\nout {}\n", c.cargo_mode, hexs(&log.to_string_lossy()), hexs(&root.join("__lib.rs").to_string_lossy())));
     let specp = root.join("__spec");
     std::fs::write(&specp, spec).unwrap();
